@@ -195,4 +195,249 @@ def exG : Chain String :=
 example : lineCount exG.modes = 4 := by decide
 example : (viewerGraph id exG 7).1.edges.map (·.src) = [none, some (7, 0), some (7, 1), some (7, 2)] := by decide
 
+
+/-! ### edge origins exist: every edge that does not start at the root starts at a PORT of a node of
+the same graph, and that slot shows the decaying daughter -/
+
+/-- the slot `dec<k>:p<i>` exists in `nodes` and shows `name` -/
+def SlotIn (nodes : List GNode) (k i : Nat) : Prop :=
+  ∃ nd ∈ nodes, nd.id = k ∧ nd.ports = true ∧ i < nd.cells.length
+
+def EdgeSrcOK (nodes : List GNode) (e : GEdge) : Prop :=
+  match e.src with
+  | none => True
+  | some (k, i) => SlotIn nodes k i
+
+theorem SlotIn.mono {ns ms : List GNode} {k i : Nat} (h : SlotIn ns k i) (hsub : ∀ x ∈ ns, x ∈ ms) :
+    SlotIn ms k i := by
+  obtain ⟨nd, hm, h1, h2, h3⟩ := h
+  exact ⟨nd, hsub nd hm, h1, h2, h3⟩
+
+theorem EdgeSrcOK.mono {ns ms : List GNode} {e : GEdge} (h : EdgeSrcOK ns e) (hsub : ∀ x ∈ ns, x ∈ ms) :
+    EdgeSrcOK ms e := by
+  unfold EdgeSrcOK at *
+  cases hs : e.src with
+  | none => trivial
+  | some p => obtain ⟨k, i⟩ := p; rw [hs] at h; exact SlotIn.mono h hsub
+
+theorem hasSub_of_mem_inr {fs : List (Item β)} {c : Chain β} (h : Sum.inr c ∈ fs) : hasSub fs = true := by
+  simp only [hasSub, List.any_eq_true]
+  exact ⟨_, h, rfl⟩
+
+mutual
+  theorem iterChain_slots (lbl : β → String) (src : Option (Nat × Nat)) :
+      ∀ (modes : List (CMode β)) (n : Nat), ∀ e ∈ (iterChain lbl src modes n).1.2,
+        e.src = src ∨ EdgeSrcOK (iterChain lbl src modes n).1.1 e
+    | [], n => by simp [iterChain]
+    | (i, fs) :: rest, n => by
+      intro e he
+      simp only [iterChain, List.mem_cons, List.mem_append] at he ⊢
+      rcases he with (rfl | he) | he
+      · exact Or.inl rfl
+      · right
+        rcases iterFs_slots lbl n fs 0 (n + 1) e he with ⟨j, hj, hlt, hs⟩ | h
+        · unfold EdgeSrcOK; rw [hj]
+          exact ⟨_, List.mem_cons_self, rfl, hs, by simpa using hlt⟩
+        · exact h.mono (fun x hx => by simp [hx])
+      · rcases iterChain_slots lbl src rest _ e he with h | h
+        · exact Or.inl h
+        · exact Or.inr (h.mono (fun x hx => by simp [hx]))
+  /-- edges made below the line drawn as node `ref`: they start at a slot `pos ≤ j < pos + |fs|` of
+      `ref` (and then the line has a decaying daughter), or at a slot of a node made here -/
+  theorem iterFs_slots (lbl : β → String) (ref : Nat) :
+      ∀ (fs : List (Item β)) (pos n : Nat), ∀ e ∈ (iterFs lbl ref fs pos n).1.2,
+        (∃ j, e.src = some (ref, j) ∧ j < pos + fs.length ∧ hasSub fs = true) ∨
+        EdgeSrcOK (iterFs lbl ref fs pos n).1.1 e
+    | [], pos, n => by simp [iterFs]
+    | .inl s :: r, pos, n => by
+      intro e he
+      simp only [iterFs] at he ⊢
+      rcases iterFs_slots lbl ref r (pos + 1) n e he with ⟨j, hj, hlt, hs⟩ | h
+      · exact Or.inl ⟨j, hj, by simp only [List.length_cons]; omega, by simpa [hasSub] using hs⟩
+      · exact Or.inr h
+    | .inr c :: r, pos, n => by
+      intro e he
+      simp only [iterFs, List.mem_append] at he ⊢
+      rcases he with he | he
+      · rcases iterSub_slots lbl (some (ref, pos)) c n e he with h | h
+        · exact Or.inl ⟨pos, h, by simp only [List.length_cons]; omega, by simp [hasSub]⟩
+        · exact Or.inr (h.mono (fun x hx => by simp [hx]))
+      · rcases iterFs_slots lbl ref r (pos + 1) _ e he with ⟨j, hj, hlt, _⟩ | h
+        · exact Or.inl ⟨j, hj, by simp only [List.length_cons]; omega, by simp [hasSub]⟩
+        · exact Or.inr (h.mono (fun x hx => by simp [hx]))
+  theorem iterSub_slots (lbl : β → String) (src : Option (Nat × Nat)) :
+      ∀ (c : Chain β) (n : Nat), ∀ e ∈ (iterSub lbl src c n).1.2,
+        e.src = src ∨ EdgeSrcOK (iterSub lbl src c n).1.1 e
+    | .mk _ modes, n => by simp only [iterSub]; exact iterChain_slots lbl src modes n
+end
+
+/-- C15 (edge origins exist): every edge starts at the root or at a PORT slot of a node of the same
+    graph — a node that carries PORT tags and has that many cells -/
+theorem C15_slots (lbl : β → String) (c : Chain β) (n : Nat) :
+    ∀ e ∈ (viewerGraph lbl c n).1.edges, EdgeSrcOK (viewerGraph lbl c n).1.nodes e := by
+  intro e he
+  simp only [viewerGraph] at he ⊢
+  rcases iterChain_slots lbl none c.modes n e he with h | h
+  · unfold EdgeSrcOK; rw [h]; trivial
+  · exact h
+
+/-! ### the label text is well formed
+
+A subset of Graphviz's grammar of HTML-like labels, as derivation rules on characters: a label is a
+`<TABLE …>` of at least one row `<TR>…</TR>`, a row has at least one cell `<TD …>text</TD>`, and `text`
+is made of plain characters (no `<`, `>`, `&`), character entities `&…;` and `<SUB>` / `<SUP>` spans.
+(A row without a cell is what finding F16 produced; a raw `<` or `&` in a name is what finding F17
+produced.) -/
+
+def NoAngle (l : List Char) : Prop := ∀ c ∈ l, c ≠ '<' ∧ c ≠ '>'
+
+instance (l : List Char) : Decidable (NoAngle l) := by unfold NoAngle; infer_instance
+
+inductive TextOK : List Char → Prop
+  | nil : TextOK []
+  | chr {c : Char} {r : List Char} : c ≠ '<' → c ≠ '>' → c ≠ '&' → TextOK r → TextOK (c :: r)
+  | ent {name r : List Char} : name ≠ [] → (∀ c ∈ name, c ≠ '<' ∧ c ≠ '>' ∧ c ≠ '&' ∧ c ≠ ';') →
+      TextOK r → TextOK ('&' :: (name ++ ';' :: r))
+  | sub {inner r : List Char} : TextOK inner → TextOK r →
+      TextOK ("<SUB>".toList ++ inner ++ "</SUB>".toList ++ r)
+  | sup {inner r : List Char} : TextOK inner → TextOK r →
+      TextOK ("<SUP>".toList ++ inner ++ "</SUP>".toList ++ r)
+
+def CellOK (cell : List Char) : Prop :=
+  ∃ attrs text, NoAngle attrs ∧ TextOK text ∧ cell = "<TD".toList ++ attrs ++ ['>'] ++ text ++ "</TD>".toList
+
+def RowOK (row : List Char) : Prop :=
+  ∃ cells, cells ≠ [] ∧ (∀ c ∈ cells, CellOK c) ∧ row = "<TR>".toList ++ cells.flatten ++ "</TR>".toList
+
+def LabelOK (l : List Char) : Prop :=
+  ∃ attrs rows, NoAngle attrs ∧ rows ≠ [] ∧ (∀ r ∈ rows, RowOK r) ∧
+    l = "<<TABLE".toList ++ attrs ++ ['>'] ++ rows.flatten ++ "</TABLE>>".toList
+
+/-- escaping makes any name a well-formed text -/
+theorem escape_textOK : ∀ l : List Char, TextOK (escapeHtmlChars l)
+  | [] => TextOK.nil
+  | c :: r => by
+    have ih := escape_textOK r
+    simp only [escapeHtmlChars]
+    have h1 : ∀ c ∈ ['a', 'm', 'p'], c ≠ '<' ∧ c ≠ '>' ∧ c ≠ '&' ∧ c ≠ ';' := by decide
+    have h2 : ∀ c ∈ ['l', 't'], c ≠ '<' ∧ c ≠ '>' ∧ c ≠ '&' ∧ c ≠ ';' := by decide
+    have h3 : ∀ c ∈ ['g', 't'], c ≠ '<' ∧ c ≠ '>' ∧ c ≠ '&' ∧ c ≠ ';' := by decide
+    split
+    · exact TextOK.ent (name := ['a', 'm', 'p']) (by simp) h1 ih
+    · split
+      · exact TextOK.ent (name := ['l', 't']) (by simp) h2 ih
+      · split
+        · exact TextOK.ent (name := ['g', 't']) (by simp) h3 ih
+        · exact TextOK.chr (by assumption) (by assumption) (by assumption) ih
+
+/-- and leaves a name without markup characters (every name the .dec grammar can produce) as it is -/
+theorem escape_plain : ∀ l : List Char, (∀ c ∈ l, c ≠ '&' ∧ c ≠ '<' ∧ c ≠ '>') → escapeHtmlChars l = l
+  | [], _ => rfl
+  | c :: r, h => by
+    have hc := h c List.mem_cons_self
+    simp only [escapeHtmlChars, hc.1, hc.2.1, hc.2.2, if_false]
+    rw [escape_plain r (fun x hx => h x (List.mem_cons_of_mem _ hx))]
+
+/-- `safe_html_name`: well-formed text whenever the HTML spellings of the table are -/
+theorem safeHtml_textOK (tbl : List (String × String)) (htbl : ∀ n h, dget tbl n = some h → TextOK h.toList)
+    (n : String) : TextOK (safeHtml tbl n) := by
+  unfold safeHtml
+  split
+  · exact htbl _ _ (by assumption)
+  · exact escape_textOK _
+
+theorem noAngle_append {a b : List Char} (ha : NoAngle a) (hb : NoAngle b) : NoAngle (a ++ b) := by
+  intro c hc; rcases List.mem_append.mp hc with h | h
+  · exact ha c h
+  · exact hb c h
+
+theorem noAngle_digits (i : Nat) : NoAngle (toString i).toList := by
+  intro c hc
+  have : c.isDigit = true := Nat.isDigit_of_mem_toDigits (b := 10) (by decide) (by decide) (by simpa [toString, Nat.repr] using hc)
+  constructor <;> (intro h; rw [h] at this; exact absurd this (by decide))
+
+theorem tdPlain_ok {text : List Char} (h : TextOK text) : CellOK (tdPlain text) :=
+  ⟨_, text, by decide, h, rfl⟩
+
+theorem tdPort_ok (i : Nat) {text : List Char} (h : TextOK text) : CellOK (tdPort i text) :=
+  ⟨_, text, noAngle_append (noAngle_append (by decide) (noAngle_digits i)) (by decide), h, rfl⟩
+
+theorem portRows_ok (safe : String → List Char) (hs : ∀ n, TextOK (safe n)) :
+    ∀ (names : List String) (i : Nat), ∀ r ∈ portRows safe names i, RowOK r
+  | [], _ => by simp [portRows]
+  | n :: rest, i => by
+    intro r hr
+    simp only [portRows, List.mem_cons] at hr
+    rcases hr with rfl | hr
+    · exact ⟨[tdPort i (safe n)], by simp, by simpa using tdPort_ok i (hs n), rfl⟩
+    · exact portRows_ok safe hs rest (i + 1) r hr
+
+theorem portRows_length (safe : String → List Char) : ∀ (names : List String) (i : Nat),
+    (portRows safe names i).length = names.length
+  | [], _ => rfl
+  | _ :: rest, i => by simp [portRows, portRows_length safe rest (i + 1)]
+
+theorem shownNames_ne_nil (names : List String) : shownNames names ≠ [] := by
+  unfold shownNames; split
+  · simp
+  · intro h; simp_all
+
+/-- C15 (the label is well formed): whatever the names, the label of a node is a table of at least
+    one row, every row with at least one cell, every cell holding well-formed text -/
+theorem C15_label_wellformed (safe : String → List Char) (hs : ∀ n, TextOK (safe n))
+    (names : List String) (addTags : Bool) (bg : String) (hbg : NoAngle bg.toList) :
+    LabelOK (htmlTableLabel safe names addTags bg) := by
+  refine ⟨tableAttrs addTags bg, labelRows safe names addTags, ?_, ?_, ?_, rfl⟩
+  · unfold tableAttrs
+    cases addTags <;> exact noAngle_append (noAngle_append (by decide) hbg) (by decide)
+  · unfold labelRows
+    cases addTags
+    · simp
+    · simp only [if_true]
+      intro h
+      have := congrArg List.length h
+      rw [portRows_length] at this
+      exact shownNames_ne_nil names (List.eq_nil_of_length_eq_zero (by simpa using this))
+  · unfold labelRows
+    cases addTags
+    · simp only [Bool.false_eq_true, if_false, List.mem_singleton]
+      rintro r rfl
+      refine ⟨(shownNames names).map fun n => tdPlain (safe n), ?_, ?_, rfl⟩
+      · simpa using shownNames_ne_nil names
+      · intro c hc
+        obtain ⟨n, _, rfl⟩ := List.mem_map.mp hc
+        exact tdPlain_ok (hs n)
+    · simp only [if_true]
+      exact portRows_ok safe hs _ 0
+
+/-- C15 (every label of a graph): the root label and the label of every decay-line node of the graph
+    of any chain are well formed — for names of any spelling, given well-formed HTML spellings in the
+    particle table -/
+theorem C15_graph_labels (tbl : List (String × String)) (htbl : ∀ n h, dget tbl n = some h → TextOK h.toList)
+    (lbl : β → String) (c : Chain β) (n : Nat) :
+    LabelOK (rootLabel (safeHtml tbl) (viewerGraph lbl c n).1.root) ∧
+    ∀ nd ∈ (viewerGraph lbl c n).1.nodes, LabelOK (nd.label (safeHtml tbl)) := by
+  have hs := safeHtml_textOK tbl htbl
+  refine ⟨C15_label_wellformed _ hs _ _ _ (by decide), fun nd _ => ?_⟩
+  unfold GNode.label
+  split
+  · exact C15_label_wellformed _ hs _ _ _ (by decide)
+  · exact C15_label_wellformed _ hs _ _ _ (by decide)
+
+/-- the PORT tags of a node with sub-chains are `p0`, `p1`, … in cell order -/
+theorem C15_ports (safe : String → List Char) : ∀ (names : List String) (i : Nat),
+    portRows safe names i = (names.zipIdx i).map fun p => trOf [tdPort p.2 (safe p.1)]
+  | [], _ => rfl
+  | n :: rest, i => by simp [portRows, List.zipIdx_cons, C15_ports safe rest (i + 1)]
+
+/-- non-vacuity: a name with markup characters, an empty line, an HTML spelling from the table -/
+example : String.ofList (escapeHtmlChars "a<b&c".toList) = "a&lt;b&amp;c" := by decide
+example : String.ofList (htmlTableLabel (safeHtml []) [] false "#eef3f8") =
+    "<<TABLE BORDER=\"0\" CELLSPACING=\"0\" CELLPADDING=\"0\" BGCOLOR=\"#eef3f8\"><TR><TD BORDER=\"0\" CELLPADDING=\"2\"></TD></TR></TABLE>>" := by
+  decide
+example : TextOK "B&#773;<SUP>0</SUP>".toList :=
+  TextOK.chr (by decide) (by decide) (by decide)
+    (TextOK.ent (name := "#773".toList) (r := "<SUP>0</SUP>".toList) (by decide) (by decide)
+      (TextOK.sup (inner := ['0']) (r := []) (TextOK.chr (by decide) (by decide) (by decide) TextOK.nil) TextOK.nil))
+
 end DL
